@@ -113,7 +113,17 @@ func vpH_C18_refuse() {
 		// a different id: another letter, or an id that shares host and a prefix/suffix of the path
 		// with to's (a longer path, a shorter one, the bare host, another query) - none is equivalent
 		tid := string(to.GetID())
-		switch vpChoice(6) {
+		switch vpChoice(9) {
+		case 6: // a query on one side only, and a query that holds the other's pairs and one more
+			vpSetID(from, IRI(tid+"?type=Create"))
+		case 7:
+			vpSetID(to, IRI(tid+"?q=go"))
+			vpSetID(from, IRI(tid+"?q=go&lang=ro"))
+			old = vpCloneItem(to)
+		case 8:
+			vpSetID(to, IRI(tid+"?q=go&q=c"))
+			vpSetID(from, IRI(tid+"?q=go"))
+			old = vpCloneItem(to)
 		case 0:
 			vpSetField(from, 0, 0, 'j')
 		case 1:
